@@ -3,12 +3,13 @@
    Framing: version | reserved | name size | datatype size | dataspace size | [v3: character set] | name | datatype |
    dataspace | data, with name / datatype / dataspace padded to multiples of 8 bytes in version 1.
    For every message (bytes < 256, shorter than 65536 bytes - the object header's 16-bit message size) that the strict
-   specification decoder accepts, ParseAttributeMessage (Model/CodecAttr.v dec_attribute) returns an error or: the same
+   specification decoder accepts, ParseAttributeMessage (Model/CodecAttr.v dec_attribute_gen, either variant of the version 2
+   padding switch) returns an error or: the same
    name, a dataspace that agrees (ReaderSpecDataspace.ds_agree), a datatype that agrees when it is of class 0 / 1 / 3
    (ReaderSpecType.dt_agree), and data bytes that start with the specification's data (the reader hands back the rest
    of the message, i.e. including up to 7 bytes of object-header padding). *)
 From HV Require Import Base.Prelude Base.Outcome Base.Bytes Spec.Parse Spec.FormatMsg
-  Model.CodecMsg Model.CodecType Model.CodecAttr Model.CodecAttrRepaired
+  Model.CodecMsg Model.CodecType Model.CodecAttr
   Proofs.RobustNoPanicBase Proofs.RobustNoPanicOhdr Proofs.RobustNoPanicType
   Proofs.ReaderSpecBase Proofs.ReaderSpecDataspace Proofs.ReaderSpecType.
 
@@ -79,13 +80,13 @@ Proof.
 Qed.
 
 (* ------------------------------------------------------------------ the two versions *)
-Lemma attribute_v1_reader_spec (lsz : nat) (pad_ok : bool) (bs : bytes) (a : attribute_spec) (tg : list tag) :
+Lemma attribute_v1_reader_spec (rep : bool) (lsz : nat) (pad_ok : bool) (bs : bytes) (a : attribute_spec) (tg : list tag) :
   bytes_ok bs = true -> blen bs < 65536 ->
   lsz = 4%nat \/ lsz = 8%nat ->
   spec_dec_attribute strict lsz pad_ok bs = Ok (a, tg) ->
   index bs 0 = Ok 1 ->
   simple_rank0 (as_space a) = false ->
-  err_or (at_agree a) (dec_attribute false bs).
+  err_or (at_agree a) (dec_attribute_gen rep false bs).
 Proof.
   intros Hb Hlen Hl H HV NS. unfold spec_dec_attribute in H.
   rewrite (at_pos_0 bs) in H. assert (P0 : 0 <= blen bs) by blia.
@@ -121,10 +122,13 @@ Proof.
   assert (A1 : 8 + align8_u16 ns = P1) by (rewrite align8_up8 by blia; blia).
   assert (A2 : P1 + align8_u16 ts = P2) by (rewrite align8_up8 by blia; blia).
   assert (A3 : P2 + align8_u16 ss = P3) by (rewrite align8_up8 by blia; blia).
-  unfold dec_attribute, rd16.
+  unfold dec_attribute_gen, rd16.
   rewrite (ltb_false_of_le (blen bs) 8) by blia. rewrite I0. cbn [obind].
+  apply N.eqb_eq in GF. subst fl. rewrite I1. cbn [obind].
+  change (N.land 0 3 =? 0) with true. cbn [negb]. rewrite !andb_false_r. cbv beta iota.
   rewrite RN. cbn [obind]. rewrite RT. cbn [obind]. rewrite RS. cbn [obind].
-  change (3 <=? 1) with false. change (1 <? 3) with true. cbv beta iota.
+  change (3 <=? 1) with false. change (1 <? 3) with true. change (1 <? 2) with true.
+  replace (if rep then true else true) with true by (destruct rep; reflexivity). cbv beta iota.
   rewrite (ltb_false_of_le (blen bs) (8 + ns)) by blia.
   replace (0 <? ns) with true by (symmetry; apply N.ltb_lt; blia).
   rewrite (slice_prefix bs 8 (8 + ns) (8 + ns - 1) nameb SN) by blia. cbn [obind].
@@ -157,13 +161,13 @@ Proof.
     destruct dat; [reflexivity|]. cbn [length] in LD. exfalso. blia.
 Qed.
 
-Lemma attribute_v3_reader_spec (lsz : nat) (pad_ok : bool) (bs : bytes) (a : attribute_spec) (tg : list tag) :
+Lemma attribute_v3_reader_spec (rep : bool) (lsz : nat) (pad_ok : bool) (bs : bytes) (a : attribute_spec) (tg : list tag) :
   bytes_ok bs = true -> blen bs < 65536 ->
   lsz = 4%nat \/ lsz = 8%nat ->
   spec_dec_attribute strict lsz pad_ok bs = Ok (a, tg) ->
   index bs 0 = Ok 3 ->
   simple_rank0 (as_space a) = false ->
-  err_or (at_agree a) (dec_attribute false bs).
+  err_or (at_agree a) (dec_attribute_gen rep false bs).
 Proof.
   intros Hb Hlen Hl H HV NS. unfold spec_dec_attribute in H.
   rewrite (at_pos_0 bs) in H. assert (P0 : 0 <= blen bs) by blia.
@@ -201,10 +205,13 @@ Proof.
   assert (A1 : 9 + ns = P1) by blia.
   assert (A2 : P1 + ts = P2) by blia.
   assert (A3 : P2 + ss = P3) by blia.
-  unfold dec_attribute, rd16.
+  unfold dec_attribute_gen, rd16.
   rewrite (ltb_false_of_le (blen bs) 8) by blia. rewrite I0. cbn [obind].
+  apply N.eqb_eq in GF. subst fl. rewrite I1. cbn [obind].
+  change (N.land 0 3 =? 0) with true. cbn [negb]. rewrite !andb_false_r. cbv beta iota.
   rewrite RN. cbn [obind]. rewrite RT. cbn [obind]. rewrite RS. cbn [obind].
-  change (3 <=? 3) with true. change (3 <? 3) with false. cbv beta iota.
+  change (3 <=? 3) with true. change (3 <? 3) with false. change (3 <? 2) with false.
+  replace (if rep then false else false) with false by (destruct rep; reflexivity). cbv beta iota.
   rewrite (ltb_false_of_le (blen bs) (9 + ns)) by blia.
   replace (0 <? ns) with true by (symmetry; apply N.ltb_lt; blia).
   rewrite (slice_prefix bs 9 (9 + ns) (9 + ns - 1) nameb SN) by blia. cbn [obind].
@@ -238,15 +245,15 @@ Proof.
 Qed.
 
 (* ------------------------------------------------------------------ version 2, for the REPAIRED reader
-   (Model/CodecAttrRepaired.v dec_attribute_gen false: notes/fixes/c06-attribute-v2-padding.patch applied).  For the reader
-   as it is (dec_attribute_gen true = dec_attribute) the statement is refuted: ReaderSpecAttr.attribute_v2_padding_refuted. *)
+   (Model/CodecAttr.v dec_attribute_gen true = dec_attribute: notes/fixes/c06-attribute-v2-padding.patch applied).  For the
+   reader before the repair (dec_attribute_gen false) the statement is refuted: ReaderSpecAttr.attribute_v2_padding_refuted. *)
 Lemma attribute_v2_repaired_reader_spec (lsz : nat) (pad_ok : bool) (bs : bytes) (a : attribute_spec) (tg : list tag) :
   bytes_ok bs = true -> blen bs < 65536 ->
   lsz = 4%nat \/ lsz = 8%nat ->
   spec_dec_attribute strict lsz pad_ok bs = Ok (a, tg) ->
   index bs 0 = Ok 2 ->
   simple_rank0 (as_space a) = false ->
-  err_or (at_agree a) (dec_attribute_gen false false bs).
+  err_or (at_agree a) (dec_attribute_gen true false bs).
 Proof.
   intros Hb Hlen Hl H HV NS. unfold spec_dec_attribute in H.
   rewrite (at_pos_0 bs) in H. assert (P0 : 0 <= blen bs) by blia.
@@ -284,6 +291,8 @@ Proof.
   assert (A3 : P2 + ss = P3) by blia.
   unfold dec_attribute_gen, rd16.
   rewrite (ltb_false_of_le (blen bs) 8) by blia. rewrite I0. cbn [obind].
+  apply N.eqb_eq in GF. subst fl. rewrite I1. cbn [obind].
+  change (N.land 0 3 =? 0) with true. cbn [negb]. rewrite !andb_false_r. cbv beta iota.
   rewrite RN. cbn [obind]. rewrite RT. cbn [obind]. rewrite RS. cbn [obind].
   change (3 <=? 2) with false. cbv beta iota. change (2 <? 2) with false. cbv beta iota.
   rewrite (ltb_false_of_le (blen bs) (8 + ns)) by blia.
